@@ -69,6 +69,10 @@ func zzRequestStep(total int64) {
 		if vrt.Bool("sent_allowed_fast") {
 			pe.SentAllowedFast.Add(&t.pieces[i])
 		}
+		// the peer's own grants to us (its allowed-fast messages) are unrelated
+		if pe.FastEnabled && vrt.Bool("peer_granted_us_allowed_fast") {
+			t.handlePeerMessage(peer.Message{Peer: pe, Message: peerprotocol.AllowedFastMessage{HaveMessage: peerprotocol.HaveMessage{Index: uint32(i)}}})
+		}
 	}
 	idx, begin, length := vrt.U32("index"), vrt.U32("begin"), vrt.U32("length")
 	from := len(zzSentLog)
@@ -103,6 +107,9 @@ func zzRequestStep(total int64) {
 	vrt.Assert(!other.Closed, "another peer was dropped")
 	if inRange && t.pieces[idx].Done && !pe.ClientChoking {
 		vrt.Assert(served == 1, "valid request from an unchoked peer not served")
+	}
+	if inRange && t.pieces[idx].Done && pe.ClientChoking && pe.FastEnabled && pe.SentAllowedFast.Has(&t.pieces[idx]) {
+		vrt.Assert(served == 1, "request for a piece granted as allowed-fast not served")
 	}
 }
 
